@@ -174,7 +174,13 @@ def judge_linux(case, stats=None):
                     feat = "plain"
                 bucket = "resolve_path:follow=%d:lexical:%s" % (follow, feat)
             else:
-                bucket = "resolve_path:follow=%d:via-symlink:dir-link" % follow
+                nh = os.path.normpath(habs)
+                if follow and os.path.islink(nh) and inside(os.path.join(os.path.realpath(os.path.dirname(nh)),
+                                                                         os.path.basename(nh)), base_real):
+                    # the returned path is itself a link (its directory is inside): a final link left unresolved
+                    bucket = "resolve_path:follow=1:via-symlink:final-link-unresolved"
+                else:
+                    bucket = "resolve_path:follow=%d:via-symlink:dir-link" % follow
             if bucket not in seen:
                 seen.add(bucket)
                 out.append((bucket, "resolve_path(%r, follow_link=%r) = %r -> host %s, outside base %s ; links %s ; "
@@ -261,6 +267,16 @@ def case_strategy():
             links = draw(st.lists(link, max_size=4))
             queries = draw(st.lists(st.tuples(posix_path(), st.sampled_from([1, 1, 0]), st.sampled_from([0, 0, 0, 1])),
                                     min_size=1, max_size=8))
+            if draw(st.integers(0, 4)) == 0:
+                # long chain of links c0 -> c1 -> ... -> c(n-1) -> final target (a resolver that gives up after
+                # some depth must still not hand an unresolved link to the host)
+                n = draw(st.one_of(st.integers(2, 14), st.sampled_from([7, 8, 9, 10, 16, 17, 33])))
+                final = draw(st.sampled_from(["/etc/passwd", "{R}/outside/secret", "../outside/secret", "/../outside",
+                                              "f0", "/d1/f1", "../../outside/secret"]))
+                rel = draw(st.booleans())
+                links = list(links) + [("", "c%d" % i, ("c%d" if rel else "/c%d") % (i + 1)) for i in range(n - 1)]
+                links.append(("", "c%d" % (n - 1), final))
+                queries = list(queries) + [("/c0", 1, 0), ("c0", draw(st.sampled_from([0, 1])), 0), ("/c0/../c0", 1, 0)]
             pt = draw(st.lists(st.sampled_from(PASSTHROUGH_POOL), max_size=2))
             return {"fn": fn, "links": [list(l) for l in links], "queries": [list(q) for q in queries],
                     "passthrough": pt, "base_mode": draw(st.sampled_from(["abs", "abs", "rel", "slash"]))}
@@ -274,7 +290,7 @@ def case_strategy():
 class C46(Check):
     pid = "C46"
     rule = ("Hypothesis cases. resolve_path: a scratch sandbox (files, two directory levels, a sibling 'outside' "
-            "directory) with 0-4 generated symbolic links (relative, upward, absolute, chained, looping, dangling "
+            "directory) with 0-4 generated symbolic links (relative, upward, absolute, chained, looping, dangling; one case in five adds a chain of 2-33 links ending inside or outside; "
             "targets, in three directories), base path given absolute / relative to cwd / with trailing slash, 0-2 "
             "passthrough entries (strings and regexps), and 1-8 guest paths (1-6 components among existing names, "
             "link names, '.', '..', '', backslash names; leading '', '/', '//', './', '../'; repeated and trailing "
